@@ -968,6 +968,10 @@ class CallMixin:
             return S((OpA("replace", (self.to_shape(v), args[0], args[1])),))
         if name in ("lower", "upper"):
             return S((OpA(name, (self.to_shape(v),)),))
+        if name in ("split", "rsplit", "splitlines", "partition", "rpartition"):
+            # pieces of a string: opaque derived data (not the datum itself)
+            pr = (PreSeq(f"{v.path}.{name}({','.join(self.ident(a) for a in args)})", "any"),)
+            return self.new_list_parts(pr) if name in ("split", "rsplit", "splitlines") else Tu(pr)
         if name == "isoformat":
             return Sym(f"{v.path}.isoformat()", frozenset({"str"}), v.label)
         if name == "format" and v.tags == frozenset({"str"}):
